@@ -164,6 +164,12 @@ def selftest(pid, root, jobs=None):
             if ok:
                 rep["mutants_fired"] += 1
             elif verdict == "silent" and v.get("known_limitation") and \
+                    not v.get("other_checks"):
+                # a documented miss (DESIGN.md section 10): reported as a
+                # limit of the checker on every thorough run
+                rep["limits"].append("mutant %s: NOT REPORTED (%s)" % (
+                    name, v["known_limitation"][:160]))
+            elif verdict == "silent" and v.get("known_limitation") and \
                     v.get("other_checks"):
                 # seeded for this property, but the code it changes is
                 # decided (and the change reported) by another property
